@@ -952,6 +952,7 @@ func (self *AofChannel) Run() {
 }
 
 func (self *AofChannel) Handle(aofLock *AofLock) {
+	verifPoint(VP_AOF_HANDLE_ENTER)
 	switch aofLock.HandleType {
 	case AOF_LOCK_TYPE_FILE:
 		self.HandleLock(aofLock)
@@ -971,6 +972,7 @@ func (self *AofChannel) Handle(aofLock *AofLock) {
 	case AOF_LOCK_TYPE_CONSISTENCY_BARRIER:
 		self.HandleConsistencyBarrierCommand(aofLock)
 	}
+	verifPoint(VP_AOF_HANDLE_EXIT)
 }
 
 func (self *AofChannel) HandleLock(aofLock *AofLock) {
